@@ -43,4 +43,12 @@ theorem pp_coincident_at_zero : GenRs.pp_coincident (⟨0, 0, 0⟩ : V3 ℝ) = t
     belong to the LAST update, whatever changed since the one before -/
 theorem set_stores_the_given_parameters (x : ℝ) : GenRs.rc2_set_stored x = x ∧ GenRs.rc3_set_stored x = x := ⟨rfl, rfl⟩
 
+/-! ### `compute()`: the moved rotation centre (regenerated last statement; `apply` is the action of the freshly built
+transform on a point) -/
+
+/-- the cached moved centre is the image of the rotation centre under the FULL transform just built — translation
+    parameters included — in 2-D and in 3-D; the Jacobian rows take their lever arms from it -/
+theorem current_rc_is_the_image_of_the_centre (a3 : V3 ℝ → V3 ℝ) (c3 : V3 ℝ) (a2 : V2 ℝ → V2 ℝ) (c2 : V2 ℝ) :
+    GenRs.rc3_current_rc a3 c3 = a3 c3 ∧ GenRs.rc2_current_rc a2 c2 = a2 c2 := ⟨rfl, rfl⟩
+
 end C08U
